@@ -263,6 +263,40 @@ def r9_4(ctx):
             else:
                 src = norm(a)
             found[norm(x.targets[0])] = (src, inner_ok, x)
+    # a module-level helper computing the running maximum of cell_len over its parameter is the same thing as max(cell_len(x) ..)
+    def widest_helper(call):
+        if not (isinstance(call, ast.Call) and isinstance(call.func, ast.Name) and len(call.args) == 1 and not call.keywords):
+            return False
+        h = f.module.functions.get(call.func.id)
+        if h is None or len(h.params) != 1:
+            return False
+        from ..astutil import helper_closed_return
+        closed = helper_closed_return(h.node)
+        p0 = h.params[0]
+        if closed is not None and norm(closed) in (f"max((cell_len(x) for x in {p0}))",):
+            return True
+        loops_ = [x for x in h.node.body if isinstance(x, ast.For)]
+        if len(loops_) != 1 or norm(loops_[0].iter) != p0 or not isinstance(loops_[0].target, ast.Name):
+            return False
+        lp_ = loops_[0]
+        rets_ = [r for r in walk_local(h.node) if isinstance(r, ast.Return)]
+        if len(rets_) != 1 or not isinstance(rets_[0].value, ast.Name):
+            return False
+        acc = rets_[0].value.id
+        inits_ = [x for x in h.node.body if isinstance(x, ast.Assign) and norm(x.targets[0]) == acc and norm(x.value) == "0"]
+        from ..astutil import inline as _inl, single_defs as _sdf
+        sd_ = {k: v for k, v in _sdf(h.node).items() if k != acc}
+        upd = False
+        for b in lp_.body:
+            # normalised clamp idiom: acc = max(acc, cell_len(item))
+            if isinstance(b, ast.Assign) and norm(b.targets[0]) == acc:
+                v = _inl(b.value, sd_)
+                if isinstance(v, ast.Call) and norm(v.func) == "max" and sorted(norm(a_) for a_ in v.args) == sorted([acc, f"cell_len({lp_.target.id})"]):
+                    upd = True
+        return bool(inits_) and upd
+    for x in walk_local(f.node):
+        if isinstance(x, ast.Assign) and widest_helper(x.value):
+            found[norm(x.targets[0])] = (norm(x.value.args[0]), True, x)
     rets = [r for r in walk_local(f.node) if isinstance(r, ast.Return) and isinstance(r.value, ast.Call) and norm(r.value.func) == "Measurement" and len(r.value.args) == 2 and all(isinstance(a, ast.Name) for a in r.value.args)]
     if not rets:
         raise AnalysisError("Text.__rich_measure__: final Measurement(min, max) of two names not found")
